@@ -10,12 +10,54 @@ structure Call where
   result : Str
   deriving DecidableEq
 
-/-- every cache entry is backed by a recorded answer of the back-end -/
-def Inv (st : State) (log : List Call) : Prop :=
-  (∀ l e, st.succ l = some e → e.user ≠ [] ∧ ∀ pw, e.digest = ⟨e.time, l, pw⟩ → (⟨e.time, l, pw, e.user⟩ : Call) ∈ log) ∧
-  (∀ l pw t, st.failed (l, pw) = some t → (⟨t, l, pw, []⟩ : Call) ∈ log)
+/-! ### the digest input determines salt and password (for one login) -/
 
-theorem inv_init : Inv State.init [] := by
+theorem colon_not_in_dec (n : Nat) : ':' ∉ dec n := by
+  intro h
+  have := Nat.isDigit_of_mem_toDigits (by decide) (by decide) h
+  revert this
+  decide
+
+theorem dec_inj {a b : Nat} (h : dec a = dec b) : a = b := by
+  have ha := @Nat.ofDigitChars_ten_toDigits a
+  have hb := @Nat.ofDigitChars_ten_toDigits b
+  unfold dec at h
+  rw [h] at ha
+  omega
+
+theorem split_at_colon : ∀ {a b x y : Str}, ':' ∉ a → ':' ∉ b → a ++ ':' :: x = b ++ ':' :: y → a = b ∧ x = y
+  | [], [], _, _, _, _, h => by simpa using h
+  | [], c :: b, _, _, _, hb, h => by
+    simp only [List.nil_append, List.cons_append, List.cons.injEq] at h
+    exact absurd (h.1 ▸ List.mem_cons_self) hb
+  | c :: a, [], _, _, ha, _, h => by
+    simp only [List.nil_append, List.cons_append, List.cons.injEq] at h
+    exact absurd (h.1 ▸ List.mem_cons_self) ha
+  | c :: a, d :: b, x, y, ha, hb, h => by
+    simp only [List.cons_append, List.cons.injEq] at h
+    have := split_at_colon (a := a) (b := b) (fun m => ha (List.mem_cons_of_mem _ m)) (fun m => hb (List.mem_cons_of_mem _ m)) h.2
+    exact ⟨by rw [h.1, this.1], this.2⟩
+
+/-- for one login, the digest input determines the salt and the password -/
+theorem digest_inj {s s' : Nat} {l pw pw' : Str} (h : digest s l pw = digest s' l pw') : s = s' ∧ pw = pw' := by
+  unfold digest at h
+  obtain ⟨h1, h2⟩ := split_at_colon (colon_not_in_dec s) (colon_not_in_dec s') h
+  refine ⟨dec_inj h1, ?_⟩
+  have := List.append_cancel_left h2
+  simpa using this
+
+/-- before fix F26 it did not: two clock readings with different numbers of digits, and a password is confused
+    with another one -/
+theorem f26_unseparated_digest_ambiguous :
+    digestUnsep 99999999999 "33".toList "3x".toList = digestUnsep 999999999993 "33".toList "x".toList := by
+  decide +kernel
+
+/-- every cache entry is backed by a recorded answer of the back-end -/
+def Inv (cfg : Cfg) (st : State) (log : List Call) : Prop :=
+  (∀ l e, st.succ l = some e → e.user ≠ [] ∧ ∀ pw, e.digest = digest e.time l pw → (⟨e.time, l, pw, e.user⟩ : Call) ∈ log) ∧
+  (∀ l pw t, st.failed (l, digest cfg.failSalt l pw) = some t → (⟨t, l, pw, []⟩ : Call) ∈ log)
+
+theorem inv_init (cfg : Cfg) : Inv cfg State.init [] := by
   constructor <;> intro <;> simp [State.init]
 
 theorem age_self (now : Nat) : age now now = 0 := by simp [age]
@@ -45,10 +87,10 @@ def logAfter (r : Result) (now : Nat) (backend : Str → Str → Str) (l pw : St
 
 theorem backendPath_step (cfg : Cfg) (succ : Str → Option SuccEntry) (failed : Str × Str → Option Nat)
     (log : List Call) (now : Nat) (backend : Str → Str → Str) (l pw : Str) (dg : Option Digest)
-    (h : Inv ⟨succ, failed⟩ log) (hdg : ∀ d, dg = some d → d.pw = pw) :
-    let r := backendPath succ failed now backend l pw dg
+    (h : Inv cfg ⟨succ, failed⟩ log) (hdg : ∀ d, dg = some d → ∃ s, d = digest s l pw) :
+    let r := backendPath cfg succ failed now backend l pw dg
     let log' := logAfter r now backend l pw log
-    Inv r.state log' ∧ (∀ c ∈ log, c ∈ log') ∧
+    Inv cfg r.state log' ∧ (∀ c ∈ log, c ∈ log') ∧
     (r.user ≠ [] → ∃ c ∈ log', c.login = l ∧ c.pw = pw ∧ c.result = r.user ∧ age now c.time ≤ cfg.succExp) ∧
     (r.user = [] → ∃ c ∈ log', c.login = l ∧ c.pw = pw ∧ c.result = [] ∧ age now c.time ≤ cfg.failExp) := by
   obtain ⟨hs, hf⟩ := h
@@ -62,7 +104,8 @@ theorem backendPath_step (cfg : Cfg) (succ : Str → Option SuccEntry) (failed :
     · intro l' pw' t hm
       rcases upd_some hm with ⟨heq, hv⟩ | ⟨_, hm'⟩
       · simp only [Prod.mk.injEq] at heq
-        obtain ⟨rfl, rfl⟩ := heq
+        obtain ⟨rfl, hd⟩ := heq
+        obtain ⟨_, rfl⟩ := digest_inj hd
         simp only [Option.some.injEq] at hv
         subst hv
         exact List.mem_cons_self
@@ -78,12 +121,12 @@ theorem backendPath_step (cfg : Cfg) (succ : Str → Option SuccEntry) (failed :
         simp only at hd
         have : pw' = pw := by
           cases dg with
-          | none => simp only [Digest.mk.injEq] at hd; exact hd.2.2.symm
+          | none => simp only at hd; exact (digest_inj hd).2.symm
           | some d =>
             simp only at hd
-            have := hdg d rfl
-            rw [hd] at this
-            exact this
+            obtain ⟨s0, hs0⟩ := hdg d rfl
+            rw [hs0] at hd
+            exact (digest_inj hd).2.symm
         subst this
         exact List.mem_cons_self
       · obtain ⟨h1, h2⟩ := hs l' e hm'
@@ -97,16 +140,16 @@ theorem backendPath_step (cfg : Cfg) (succ : Str → Option SuccEntry) (failed :
 /-- The step theorem: the invariant is preserved and the answer of this call is justified by a recorded
     back-end answer for the same login and password that is recent enough. -/
 theorem login_step (cfg : Cfg) (st : State) (log : List Call) (now : Nat) (backend : Str → Str → Str) (l pw : Str)
-    (h : Inv st log) :
+    (h : Inv cfg st log) :
     let r := login cfg st now backend l pw
     let log' := logAfter r now backend l pw log
-    Inv r.state log' ∧ (∀ c ∈ log, c ∈ log') ∧
+    Inv cfg r.state log' ∧ (∀ c ∈ log, c ∈ log') ∧
     (r.user ≠ [] → ∃ c ∈ log', c.login = l ∧ c.pw = pw ∧ c.result = r.user ∧ age now c.time ≤ cfg.succExp) ∧
     (r.user = [] → ∃ c ∈ log', c.login = l ∧ c.pw = pw ∧ c.result = [] ∧ age now c.time ≤ cfg.failExp) := by
   obtain ⟨hs, hf⟩ := h
-  have hfail' : ∀ l pw t, sweep cfg now st.failed (l, pw) = some t → (⟨t, l, pw, []⟩ : Call) ∈ log :=
+  have hfail' : ∀ l pw t, sweep cfg now st.failed (l, digest cfg.failSalt l pw) = some t → (⟨t, l, pw, []⟩ : Call) ∈ log :=
     fun l pw t hm => hf l pw t (sweep_some hm).1
-  have hinv' : Inv ⟨st.succ, sweep cfg now st.failed⟩ log := ⟨hs, hfail'⟩
+  have hinv' : Inv cfg ⟨st.succ, sweep cfg now st.failed⟩ log := ⟨hs, hfail'⟩
   unfold login
   simp only
   split
@@ -118,7 +161,7 @@ theorem login_step (cfg : Cfg) (st : State) (log : List Call) (now : Nat) (backe
     refine ⟨hinv', fun c hc => hc, (by intro hx; first | exact hx.elim | exact absurd rfl hx), fun _ => ?_⟩
     exact ⟨⟨t, l, pw, []⟩, hf l pw t (sweep_some ht).1, rfl, rfl, rfl, ha⟩
   · split
-    · exact backendPath_step cfg _ _ log now backend l pw _ hinv' (by intro d hd; cases hd; rfl)
+    · exact backendPath_step cfg _ _ log now backend l pw _ hinv' (by intro d hd; cases hd; exact ⟨_, rfl⟩)
     · rename_i e hsl
       obtain ⟨heu, hej⟩ := hs l e hsl
       split
@@ -133,12 +176,12 @@ theorem login_step (cfg : Cfg) (st : State) (log : List Call) (now : Nat) (backe
           simp only [logAfter]
           refine ⟨hinv', fun c hc => hc, fun _ => ?_, (by intro hx; first | exact hx.elim | exact absurd hx heu)⟩
           exact ⟨⟨e.time, l, pw, e.user⟩, hej pw hd.symm, rfl, rfl, rfl, Nat.le_of_not_gt hage⟩
-      · exact backendPath_step cfg _ _ log now backend l pw _ hinv' (by intro d hd; cases hd; rfl)
+      · exact backendPath_step cfg _ _ log now backend l pw _ hinv' (by intro d hd; cases hd; exact ⟨_, rfl⟩)
 
 /-! ### independence of logins -/
 
 /-- everything `login … l …` can see of the caches: the successful entry of `l` and the failed entries under `l` -/
-def view (l : Str) (st : State) : Option SuccEntry × (Str → Option Nat) := (st.succ l, fun pw => st.failed (l, pw))
+def view (l : Str) (st : State) : Option SuccEntry × (Str → Option Nat) := (st.succ l, fun d => st.failed (l, d))
 
 theorem upd_ne {α β} [DecidableEq α] (f : α → Option β) {k x : α} (v : Option β) (h : x ≠ k) : upd f k v x = f x := by
   simp [upd, h]
@@ -151,9 +194,9 @@ theorem sweep_view (cfg : Cfg) (now : Nat) (l : Str) (f g : Str × Str → Optio
 theorem other_login_view (cfg : Cfg) (st : State) (now : Nat) (backend : Str → Str → Str) (l l' pw' : Str)
     (hne : l' ≠ l) :
     view l (login cfg st now backend l' pw').state = view l ⟨st.succ, sweep cfg now st.failed⟩ := by
-  have hk : ∀ pw, (l, pw) ≠ (l', pw') := fun pw h => hne (by simp only [Prod.mk.injEq] at h; exact h.1.symm)
+  have hk : ∀ pw, (l, pw) ≠ (l', digest cfg.failSalt l' pw') := fun pw h => hne (by simp only [Prod.mk.injEq] at h; exact h.1.symm)
   have hbp : ∀ succ dg, succ l = st.succ l →
-      view l (backendPath succ (sweep cfg now st.failed) now backend l' pw' dg).state
+      view l (backendPath cfg succ (sweep cfg now st.failed) now backend l' pw' dg).state
         = view l ⟨st.succ, sweep cfg now st.failed⟩ := by
     intro succ dg hsucc
     unfold backendPath view
@@ -184,29 +227,29 @@ theorem login_view_congr (cfg : Cfg) (st₁ st₂ : State) (now : Nat) (backend 
   have hf' : ∀ pw, st₁.failed (l, pw) = st₂.failed (l, pw) := fun pw => congrFun hf pw
   have hsw := sweep_view cfg now l _ _ hf'
   have hbp : ∀ (s₁ s₂ : Str → Option SuccEntry) dg, s₁ l = s₂ l →
-      (backendPath s₁ (sweep cfg now st₁.failed) now backend l pw dg).user =
-        (backendPath s₂ (sweep cfg now st₂.failed) now backend l pw dg).user ∧
-      view l (backendPath s₁ (sweep cfg now st₁.failed) now backend l pw dg).state =
-        view l (backendPath s₂ (sweep cfg now st₂.failed) now backend l pw dg).state := by
+      (backendPath cfg s₁ (sweep cfg now st₁.failed) now backend l pw dg).user =
+        (backendPath cfg s₂ (sweep cfg now st₂.failed) now backend l pw dg).user ∧
+      view l (backendPath cfg s₁ (sweep cfg now st₁.failed) now backend l pw dg).state =
+        view l (backendPath cfg s₂ (sweep cfg now st₂.failed) now backend l pw dg).state := by
     intro s₁ s₂ dg hss
     unfold backendPath view
     by_cases hr : backend l pw = []
     · simp only [hr, ne_eq, not_true_eq_false, if_false, Prod.mk.injEq, true_and]
       refine ⟨hss, ?_⟩
       funext pw'
-      by_cases hp : pw' = pw
+      by_cases hp : pw' = digest cfg.failSalt l pw
       · simp [upd, hp]
-      · have : (l, pw') ≠ (l, pw) := by simp [hp]
+      · have : (l, pw') ≠ (l, digest cfg.failSalt l pw) := by simp [hp]
         simp [upd_ne _ _ this, hsw pw']
     · simp only [ne_eq, hr, not_false_eq_true, if_true, Prod.mk.injEq, true_and]
       refine ⟨by simp [upd], ?_⟩
       funext pw'
-      by_cases hp : pw' = pw
+      by_cases hp : pw' = digest cfg.failSalt l pw
       · simp [upd, hp]
-      · have : (l, pw') ≠ (l, pw) := by simp [hp]
+      · have : (l, pw') ≠ (l, digest cfg.failSalt l pw) := by simp [hp]
         simp [upd_ne _ _ this, hsw pw']
   unfold login
-  simp only [hsw pw, hs]
+  simp only [hsw (digest cfg.failSalt l pw), hs]
   split
   · refine ⟨rfl, ?_⟩
     simp only [view, hs, Prod.mk.injEq, true_and]
